@@ -6,6 +6,8 @@ import (
 	"go/token"
 	"go/types"
 	"math/big"
+	"sort"
+	"strings"
 
 	"golang.org/x/tools/go/ssa"
 )
@@ -239,6 +241,8 @@ func (f *Frame) exit(e Exit) {
 	if e.Panic && len(f.defers) > 0 {
 		// deferred calls run on the panic path too; one of them may recover
 		ctx := &deferCtx{panicking: true, pv: e.PV}
+		// a panic value is never the nil interface
+		f.vc.Assume(Implies(e.PC, Ne(ITag(e.PV), IntLit(0))))
 		st := f.runDefersCtx(State{e.PC, e.Heap}, ctx)
 		if st.PC.S == "false" {
 			return
@@ -912,6 +916,42 @@ func (vc *VC) noteIfaceAssert(t types.Type) {
 		vc.ifaceAsserts = map[string]types.Type{}
 	}
 	vc.ifaceAsserts[typeName(t)] = t
+	if _, done := vc.cwFacts[typeName(t)]; done {
+		return
+	}
+	if vc.cwFacts == nil {
+		vc.cwFacts = map[string]string{}
+	}
+	vc.cwFacts[typeName(t)] = ""
+	iface, ok := t.Underlying().(*types.Interface)
+	if !ok {
+		return
+	}
+	itag := vc.W.Sorts.Tag(t)
+	// closed world: an interface declared in the module (with at least one
+	// method) is implemented only by types of the loaded program
+	if nt, ok := t.(*types.Named); ok && nt.Obj().Pkg() != nil && vc.W.inModule(nt.Obj().Pkg().Path()) && iface.NumMethods() > 0 {
+		var impl []string
+		for _, ct := range vc.W.allNamedTypes() {
+			for _, c := range []types.Type{ct, types.NewPointer(ct)} {
+				if _, isI := c.Underlying().(*types.Interface); isI {
+					continue
+				}
+				if types.Implements(c, iface) {
+					impl = append(impl, fmt.Sprintf("(= t %d)", vc.W.Sorts.Tag(c)))
+				}
+			}
+		}
+		sort.Strings(impl)
+		body := "false"
+		if len(impl) == 1 {
+			body = impl[0]
+		} else if len(impl) > 1 {
+			body = "(or " + strings.Join(impl, " ") + ")"
+		}
+		vc.Trusted["closed world: interfaces declared in the module are implemented only by types of the loaded program"] = true
+		vc.cwFacts[typeName(t)] = fmt.Sprintf("(assert (forall ((t Int)) (! (=> (implements! %d t) %s) :pattern ((implements! %d t)))))\n", itag, body, itag)
+	}
 }
 
 // zeroArr is a zero-initialised backing array.
